@@ -402,11 +402,22 @@ func httpEvent(e string, d directive, v value) event {
 		"lok": false, "lfmt": -1, "want": v.want, "got": ""}
 }
 
+// presetOf chooses (from the vector itself: reproducible) whether the message carries a content type before the dump.
+func presetOf(d directive, v value) string {
+	presets := []string{"", "", "application/json; charset=utf-8", "text/plain", "application/cbor", "application/msgpack"}
+	return presets[(d.Dser+d.F+len(v.kind)+len(d.Hdr))%len(presets)]
+}
+
 func reqOnce(d directive, v value) {
 	ev := httpEvent("req", d, v)
 	ev["f"] = d.F
 	guard(ev, func() {
 		r := httptest.NewRequest(http.MethodPost, "http://verif.test/x", nil)
+		if preset := presetOf(d, v); preset != "" {
+			// a request object that carries a content type already (a retry with another format, a template)
+			r.Header.Set("Content-Type", preset)
+			ev["preset"] = preset
+		}
 		if err := dsd.DumpToHTTPRequest(r, v.val, u8(d.F)); err != nil {
 			ev["derr"] = err.Error()
 			return
@@ -447,6 +458,11 @@ func respOnce(d directive, v value, api string) {
 				r.Header.Set("Accept", accept)
 			}
 			w := httptest.NewRecorder()
+			if preset := presetOf(d, v); preset != "" {
+				// a response writer on which a middleware has set a default content type
+				w.Header().Set("Content-Type", preset)
+				ev["preset"] = preset
+			}
 			if err := dsd.DumpToHTTPResponse(w, r, v.val); err != nil {
 				ev["derr"] = err.Error()
 				return
